@@ -41,7 +41,7 @@ def run(ctx):
     cases = []
     for c in r.tagged("CASE"):
         cases.append({"id": len(cases), "fam": c["fam"], "in": case_in(c), "exp": c["exp"], "l1": c["l1"],
-                      "decided": c["decided"]})
+                      "decided": c["decided"], "dev": c.get("dev", "")})
     lap("tlc_gen")
     if len(cases) < 8000:
         raise vf.Infra("generator produced only %d cases" % len(cases))
@@ -61,6 +61,7 @@ def run(ctx):
 
     ndrift = nopen = 0
     byfam = {}
+    bycause = {}
     for c in cases:
         o = obs.get(c["id"])
         if o is None:
@@ -79,10 +80,13 @@ def run(ctx):
             nopen += 1
             continue
         if view != c["exp"]:
-            ctx.violation({"fam": c["fam"], "in": c["in"], "exp": c["exp"], "obs": view},
-                          "%s descriptor %s: expected %s, real code gave %s%s" % (
+            l1view = {k: v for k, v in c["l1"].items() if k != "wire"}
+            cz = c["dev"] if (c["dev"] and view == l1view) else "none"
+            bycause[cz] = bycause.get(cz, 0) + 1
+            ctx.violation({"fam": c["fam"], "in": c["in"], "exp": c["exp"], "obs": view, "cause": cz},
+                          "%s descriptor %s: expected %s, real code gave %s%s [cause: %s]" % (
                               c["fam"], c["in"], c["exp"], view,
-                              (" (wire %r)" % got.get("wire")) if c["fam"] == "link" else ""))
+                              (" (wire %r)" % got.get("wire")) if c["fam"] == "link" else "", cz))
     ctx.set("cases_enumerated", len(cases))
     ctx.set("cases_by_family", byfam)
     ctx.set("cases_left_open", nopen)
@@ -109,9 +113,10 @@ def run(ctx):
         for bad in tv.tagged("BAD"):
             x = raw[i + bad["l"] - 1]
             inp = {k: v for k, v in x.items() if k not in ("got", "run", "fam", "wire", "value")}
-            ctx.violation({"fam": x["fam"], "in": inp, "obs": x["got"], "via": "random"},
-                          "%s descriptor built from %s (text %r): real code gave %s" % (
-                              x["fam"], inp, x.get("raw", x.get("wire", x.get("value"))), x["got"]))
+            bycause[bad["dev"]] = bycause.get(bad["dev"], 0) + 1
+            ctx.violation({"fam": x["fam"], "in": inp, "obs": x["got"], "via": "random", "cause": bad["dev"]},
+                          "%s descriptor built from %s (text %r): real code gave %s [cause: %s]" % (
+                              x["fam"], inp, x.get("raw", x.get("wire", x.get("value"))), x["got"], bad["dev"]))
         tvopen += len(tv.tagged("OPEN"))
         ndrift += len(tv.tagged("DRIFT"))
     lap("tlc_trace_validation")
@@ -120,6 +125,7 @@ def run(ctx):
     ctx.set("trace_records", len(recs))
     ctx.set("trace_records_left_open", tvopen)
     ctx.set("drift_events", ndrift)
+    ctx.set("violations_by_cause", bycause)
     if ndrift:
         ctx.note("%d observations differ from layer 1 (code-shaped expectation) — DRIFT, not a verdict" % ndrift)
     ctx.sample({"trace_record": {k: v for k, v in raw[0].items() if k != "run"}})
